@@ -71,6 +71,7 @@ def run(rep: core.Report):
     _r17g(rep)
     _r17h(rep)
     _r17i(rep)
+    _r17k(rep)
     from rules import shared_bcast
 
     shared_bcast.run(rep, "R17j", sorted(core.python_files("phonopy/interface")))
@@ -818,6 +819,79 @@ def _r17i(rep):
         raise AnalysisError("R17i: no looked-up index subscripts a list built by append any more (WIEN2k force distribution on the confirmed tree)")
 
 
+
+def _r17k(rep):
+    """The cell rebuilt from lengths and angles (LAMMPS orientation) has those lengths and angles: Gram-matrix identities."""
+    import sympy as sp
+
+    from engine import symnp
+
+    CELLS_ = "phonopy/structure/cells.py"
+    rep.rule("R17k", "get_cell_matrix(a, b, c, alpha, beta, gamma) returns a lower-triangular lattice whose Gram matrix is that of the six parameters: |a_1| = a, |a_2| = b, |a_3| = c, a_1.a_2 = ab cos(gamma), a_1.a_3 = ac cos(beta), a_2.a_3 = bc cos(alpha) (symbolic evaluation of the function body and trigonometric simplification); the LAMMPS writer and the back-rotation of LAMMPS forces rely on it being a rigid rotation of the input cell", 6)
+    fn = core.find_def(CELLS_, "get_cell_matrix")
+    ps = [a.arg for a in fn.args.args]
+    if len(ps) < 6:
+        raise AnalysisError("get_cell_matrix: fewer than six parameters")
+    A, B, C_ = sp.symbols("a b c", positive=True)
+    al, be, ga = sp.symbols("alpha beta gamma", positive=True)
+    env = dict(zip(ps[:6], (A, B, C_, al, be, ga)))
+
+    def hook(call, ev):
+        f = core.src(call.func)
+        if f in ("np.cos", "np.sin", "np.sqrt", "np.tan", "math.cos", "math.sin", "math.sqrt") and len(call.args) == 1:
+            g = {"cos": sp.cos, "sin": sp.sin, "sqrt": sp.sqrt, "tan": sp.tan}[f.split(".")[-1]]
+            v = ev.ev(call.args[0])
+            return [g(x) for x in v] if isinstance(v, list) else g(v)
+        if f in ("np.zeros",) and call.args:
+            shp = ast.literal_eval(call.args[0]) if isinstance(call.args[0], (ast.Tuple, ast.Constant)) else None
+            if shp == (3, 3):
+                return [[sp.Integer(0)] * 3 for _ in range(3)]
+        return None
+
+    ev = symnp.Evaluator(env, where=f"{CELLS_}::get_cell_matrix", call_hook=hook)
+    ret = None
+    for st in fn.body:
+        if isinstance(st, ast.Expr) and isinstance(st.value, ast.Constant):
+            continue
+        if isinstance(st, ast.If):
+            continue  # degree -> radian conversion of the arguments: the identities are stated for radians
+        if isinstance(st, ast.Assign) and len(st.targets) == 1:
+            t = st.targets[0]
+            v = ev.ev(st.value)
+            if isinstance(t, ast.Name):
+                ev.env[t.id] = v
+            elif isinstance(t, ast.Tuple) and isinstance(v, list) and len(v) == len(t.elts):
+                for nm, x in zip(t.elts, v):
+                    ev.env[nm.id] = x
+            elif isinstance(t, ast.Subscript) and isinstance(t.value, ast.Name) and isinstance(ev.env.get(t.value.id), list):
+                L = ev.env[t.value.id]
+                ix = t.slice
+                if isinstance(ix, ast.Constant) and isinstance(v, list):
+                    L[ix.value] = list(v)
+                elif isinstance(ix, ast.Tuple) and all(isinstance(x, ast.Constant) for x in ix.elts) and not isinstance(v, list):
+                    L[ix.elts[0].value] = list(L[ix.elts[0].value])
+                    L[ix.elts[0].value][ix.elts[1].value] = v
+                else:
+                    raise AnalysisError(f"get_cell_matrix: store '{core.src(st)}' outside the modelled fragment")
+            else:
+                raise AnalysisError(f"get_cell_matrix: statement '{core.norm(core.src(st), 50)}' outside the modelled fragment")
+        elif isinstance(st, ast.Return):
+            ret = ev.ev(st.value)
+        else:
+            raise AnalysisError(f"get_cell_matrix: statement '{core.norm(core.src(st), 50)}' outside the modelled fragment")
+    if symnp.shape(ret) != (3, 3):
+        raise AnalysisError("get_cell_matrix does not return a 3x3 array")
+    G = [[sum(ret[i][k] * ret[j][k] for k in range(3)) for j in range(3)] for i in range(3)]
+    want = {(0, 0): A**2, (1, 1): B**2, (2, 2): C_**2, (0, 1): A * B * sp.cos(ga), (0, 2): A * C_ * sp.cos(be), (1, 2): B * C_ * sp.cos(al)}
+    names = {(0, 0): "|a_1|^2 = a^2", (1, 1): "|a_2|^2 = b^2", (2, 2): "|a_3|^2 = c^2", (0, 1): "a_1.a_2 = a b cos(gamma)", (0, 2): "a_1.a_3 = a c cos(beta)", (1, 2): "a_2.a_3 = b c cos(alpha)"}
+    for k, w in want.items():
+        d = sp.simplify(sp.trigsimp(sp.expand(G[k[0]][k[1]] - w)))
+        rep.instance("R17k", CELLS_, "get_cell_matrix", names[k], d == 0,
+                     f"the lattice built from (a, b, c, alpha, beta, gamma) has {names[k].split('=')[0].strip()} = {sp.simplify(G[k[0]][k[1]])}: it is not a rigid rotation of the cell it was built from (alpha and beta exchanged shows only when they differ: b-unique monoclinic, triclinic), so the structure written for LAMMPS is another crystal and the forces are rotated back by a non-orthogonal matrix", line=fn.lineno)
+    upper = [ret[0][1], ret[0][2], ret[1][2]]
+    rep.instance("R17k", CELLS_, "get_cell_matrix", "lower-triangular orientation (a along x, b in the xy plane)", all(sp.simplify(x) == 0 for x in upper), "the returned lattice is not lower triangular", line=fn.lineno)
+
+
 def selftest():
     V = []
     b = lambda name, file, old, new, rule, expect="", **kw: V.append(dict(name=name, kind="break", file=file, old=old, new=new, rule=rule, expect=expect, **kw))
@@ -847,4 +921,6 @@ def selftest():
     n("wien2k lookup through a table over the list kept next to the forces", "phonopy/interface/wien2k.py", "        force_set = []\n        for i in range(natom):\n            j = indep_atoms_to_wien2k.index(map_atoms[i])", "        force_set = []\n        where = {a: k for k, a in enumerate(indep_atoms_to_wien2k)}\n        for i in range(natom):\n            j = where[map_atoms[i]]")
     b("abinit writer normalises the lattice column-wise", "phonopy/interface/abinit.py", '    lines += ((" % 20.16f" * 3 + "\\n") * 3) % tuple(cell.cell.ravel())', '    lat = cell.cell\n    lines += ((" % 20.16f" * 3 + "\\n") * 3) % tuple((lat / np.linalg.norm(lat, axis=1)).ravel())', "R17j", "axis=1")
     n("abinit writer normalises the lattice row-wise", "phonopy/interface/abinit.py", '    lines += ((" % 20.16f" * 3 + "\\n") * 3) % tuple(cell.cell.ravel())', '    lat = cell.cell\n    lines += ((" % 20.16f" * 3 + "\\n") * 3) % tuple((lat / np.linalg.norm(lat, axis=1, keepdims=True) * np.linalg.norm(lat, axis=1, keepdims=True)).ravel())')
+    b("cell from lengths and angles with alpha and beta exchanged", "phonopy/structure/cells.py", "    c2 = (2 * np.cos(alpha) + b1**2 + b2**2 - 2 * b1 * c1 - 1) / (2 * b2)", "    c2 = (np.cos(beta) - np.cos(alpha) * b1) / b2", "R17k", "a_2.a_3")
+    n("cell from lengths and angles in textbook form", "phonopy/structure/cells.py", "    c2 = (2 * np.cos(alpha) + b1**2 + b2**2 - 2 * b1 * c1 - 1) / (2 * b2)", "    c2 = (np.cos(alpha) - c1 * b1) / b2")
     return V
